@@ -286,9 +286,12 @@ def corruptions(ref, op, payload, other_variant):
         # composite
         emit("obj<-scalar@" + pstr, mutate(path, set_to(5)))
         Rv = v.get("__typename") if s.kind(b) != "object" else b
-        if [k2 for k2 in ref.collect(sub, Rv) if k2 != "__typename"] or s.kind(b) != "object":
-            # (a `{ __typename }`-only object selection is an empty struct, which serde also reads from `[]`;
-            # the property does not speak about that, so it is not generated)
+        coll = ref.collect(sub, Rv)
+        has_required = any(k2 != "__typename" and is_nn((s.field(Rv, it2[2]) or s.field(b, it2[2]))["type"]) for k2, it2 in coll.items() if it2[0] == "field")
+        if has_required or s.kind(b) != "object":
+            # `[]` in place of an object: every key is missing, so it must fail when a non-null key (or the
+            # `__typename` tag of an abstract position) is among them. serde also reads structs from sequences,
+            # and an all-optional struct accepts `[]`; the property does not speak about that, so it is not generated
             emit("obj<-list@" + pstr, mutate(path, set_to([])))
         walk_scope(v, sub, b, path, pstr)
 
